@@ -154,3 +154,6 @@ int main() {
 
 // positive example for the zero-expected rule C11 R11.3 (never called)
 namespace W { inline std::string_view positive_example_cstr_view(const std::string& s) { return std::string_view(s.c_str()); } }
+
+// positive example for the zero-expected rule C19 R19.4 (never called)
+namespace W { inline int positive_example_gmtime(std::time_t t) { const std::tm* p = std::gmtime(&t); return p ? p->tm_year : 0; } }
